@@ -551,6 +551,8 @@ def c16(ctx):
     ctx.model("c16-allpol-send", dict(AllPol=True, MaxSend=1, MaxFlight=4), inv, timeout=2400)
     if not q:
         ctx.model("c16-allpol-query", dict(AllPol=True, MaxQuery=1, MaxOffer=1, MaxFlight=4), inv, timeout=3000)
+        # a stray message of either version from E before / during the negotiation
+        ctx.model("c16-allpol-stray", dict(AllPol=True, MaxOffer=1, MaxAtk=1, MaxFlight=4), inv, timeout=3000)
     d = os.path.join(ctx.work, "nego")
     os.makedirs(d, exist_ok=True)
     import subprocess
